@@ -1,4 +1,5 @@
 """C17 - ScratchDB buffers a batch and commits it atomically or not at all."""
+import collections
 import itertools
 
 from hypothesis import strategies as st
@@ -194,12 +195,44 @@ def _make_exc(kind):
     return abort_exception(kind)
 
 
-def _run_once(base, ops, dd, exit_at, exc_kind=0, wrapped_kind=0):
-    wrapped = dict(base)
-    if wrapped_kind:
-        import collections
+class _CountingDict(dict):
+    """A dict that counts the mutating calls made on it (what a commit does to the wrapped db)."""
 
-        wrapped = collections.defaultdict(lambda: b"inserted-by-default", base)
+    mutations = 0
+
+    def __setitem__(self, k, v):
+        self.mutations += 1
+        dict.__setitem__(self, k, v)
+
+    def __delitem__(self, k):
+        self.mutations += 1
+        dict.__delitem__(self, k)
+
+    def pop(self, *a):
+        self.mutations += 1
+        return dict.pop(self, *a)
+
+
+class _CountingDefaultDict(collections.defaultdict):
+    mutations = 0
+
+    def __setitem__(self, k, v):
+        self.mutations += 1
+        collections.defaultdict.__setitem__(self, k, v)
+
+    def __delitem__(self, k):
+        self.mutations += 1
+        collections.defaultdict.__delitem__(self, k)
+
+    def pop(self, *a):
+        self.mutations += 1
+        return collections.defaultdict.pop(self, *a)
+
+
+def _run_once(base, ops, dd, exit_at, exc_kind=0, wrapped_kind=0):
+    wrapped = _CountingDict(base)
+    if wrapped_kind:
+        wrapped = _CountingDefaultDict(lambda: b"inserted-by-default", base)
     s = impl("construct", ScratchDB, wrapped)
     cm = impl("batch-open", s.batch_commit, do_deletes=dd)
     cm_enter("batch-open", cm)
@@ -270,7 +303,15 @@ def _run_once(base, ops, dd, exit_at, exc_kind=0, wrapped_kind=0):
             got = impl("buffer-empty-after", s.__getitem__, key)
             expect_eq("buffer-empty-after", got, final[key], f"scratch[{key!r}] after the batch")
     expect_eq("buffer-empty-after", impl("buffer-empty-after", s.copy), final, "copy() after the batch")
-    expect_eq("buffer-empty-after", s.cache, {}, "ScratchDB.cache after the batch")
+    # ... and nothing is left to apply: a second, empty batch must not touch the wrapped db
+    # (observed through the calls it receives, so no internal attribute is looked at)
+    before = wrapped.mutations
+    cm2 = impl("batch-open", s.batch_commit, do_deletes=True)
+    cm_enter("batch-open", cm2)
+    cm_exit("batch-exit", cm2)
+    expect_eq("buffer-empty-after", wrapped.mutations - before, 0,
+              "writes / deletes reaching the wrapped db from an empty batch that follows")
+    expect_eq("buffer-empty-after", dict(wrapped), final, "wrapped db after an empty batch that follows")
 
 LEVEL_TEXT = (
     "Fault enumeration: every generated batch (and every op sequence of length <=3/<=5 "
